@@ -186,8 +186,12 @@ COLUMNS = {
     "cat1": {"HED": {"a": "Red", "b": "(Blue, Square)"}},
     "cat2": {"Levels": {"x": "level x"}, "HED": {"x": "Circle"}},
     "ign1": {"Description": "no annotation here", "Levels": {"p": "q"}},
-    "refc": {"HED": {"r1": "Triangle, {val1}", "r2": "({cat1}), Cross"}},
+    # (r3: a reference written with blanks inside its own parentheses - the blank belongs to the brackets that go with the reference)
+    "refc": {"HED": {"r1": "Triangle, {val1}", "r2": "({cat1}), Cross", "r3": "(Square, ( {cat1} )), ( {val1}), Cross"}},
     "refv": {"HED": "Label/#, {HED}"},
+    # the HED column of the events table may be absent from a row (the reference is then removed with the brackets that go with it): written
+    # with blanks inside those brackets
+    "refh": {"HED": {"h1": "(Red, ( {HED}))", "h2": "Blue, ( {HED} ), Cross", "h3": "( ( {HED} ), Green)"}},
 }
 NEEDS = {"refc": {"val1", "cat1"}}
 
